@@ -100,6 +100,38 @@ func Instrument(root, outDir string, baseOverlay map[string]string) (map[string]
 		}
 	}
 	sort.Strings(files)
+	// package-level variables per directory: functions that mention one get statement-level
+	// points even in files that are otherwise instrumented at function entries only
+	pkgVars := map[string]map[string]bool{}
+	for _, p := range files {
+		src := p
+		if r, ok := baseOverlay[p]; ok {
+			src = r
+		}
+		b, err := os.ReadFile(src)
+		if err != nil {
+			continue
+		}
+		f, err := parser.ParseFile(token.NewFileSet(), p, b, 0)
+		if err != nil {
+			continue
+		}
+		dir := filepath.Dir(p)
+		if pkgVars[dir] == nil {
+			pkgVars[dir] = map[string]bool{}
+		}
+		for _, d := range f.Decls {
+			if gd, ok := d.(*ast.GenDecl); ok && gd.Tok == token.VAR {
+				for _, sp := range gd.Specs {
+					for _, n := range sp.(*ast.ValueSpec).Names {
+						if n.Name != "_" {
+							pkgVars[dir][n.Name] = true
+						}
+					}
+				}
+			}
+		}
+	}
 	for _, p := range files {
 		rel, _ := filepath.Rel(root, p)
 		src := p
@@ -110,7 +142,7 @@ func Instrument(root, outDir string, baseOverlay map[string]string) (map[string]
 		if err != nil {
 			return nil, nil, err
 		}
-		out, fsites, err := rewrite(rel, b, len(sites))
+		out, fsites, err := rewrite(rel, b, len(sites), pkgVars[filepath.Dir(p)])
 		if err != nil {
 			return nil, nil, fmt.Errorf("%s: %v", rel, err)
 		}
@@ -130,7 +162,19 @@ func Instrument(root, outDir string, baseOverlay map[string]string) (map[string]
 	return overlay, sites, nil
 }
 
-func rewrite(rel string, src []byte, firstID int) ([]byte, []Site, error) {
+// mentions reports whether the node references one of the names as a plain identifier.
+func mentions(n ast.Node, names map[string]bool) bool {
+	found := false
+	ast.Inspect(n, func(x ast.Node) bool {
+		if id, ok := x.(*ast.Ident); ok && names[id.Name] {
+			found = true
+		}
+		return !found
+	})
+	return found
+}
+
+func rewrite(rel string, src []byte, firstID int, pkgVars map[string]bool) ([]byte, []Site, error) {
 	m := modeOf(rel)
 	fset := token.NewFileSet()
 	f, err := parser.ParseFile(fset, rel, src, parser.ParseComments)
@@ -158,6 +202,15 @@ func rewrite(rel string, src []byte, firstID int) ([]byte, []Site, error) {
 			point(s.Pos())
 		}
 	}
+	hot := map[token.Pos]token.Pos{} // body ranges of functions instrumented at statement level
+	inHot := func(p token.Pos) bool {
+		for a, b := range hot {
+			if p >= a && p < b {
+				return true
+			}
+		}
+		return false
+	}
 	usesShim := false
 	otherSync := false
 	syncImported := false
@@ -180,19 +233,24 @@ func rewrite(rel string, src []byte, firstID int) ([]byte, []Site, error) {
 			}
 		case *ast.FuncDecl:
 			if x.Body != nil && m == modeEntry {
-				id := addSite(x.Body.Lbrace)
-				edits = append(edits, edit{off: off(x.Body.Lbrace) + 1, text: fmt.Sprintf(" vsched.Y(%d); ", id)})
+				if mentions(x.Body, pkgVars) {
+					// the function touches package-level state: statement granularity inside it
+					hot[x.Body.Pos()] = x.Body.End()
+				} else {
+					id := addSite(x.Body.Lbrace)
+					edits = append(edits, edit{off: off(x.Body.Lbrace) + 1, text: fmt.Sprintf(" vsched.Y(%d); ", id)})
+				}
 			}
 		case *ast.BlockStmt:
-			if m == modeStmt {
+			if m == modeStmt || inHot(x.Pos()) {
 				instrList(x.List)
 			}
 		case *ast.CaseClause:
-			if m == modeStmt {
+			if m == modeStmt || inHot(x.Pos()) {
 				instrList(x.Body)
 			}
 		case *ast.CommClause:
-			if m == modeStmt {
+			if m == modeStmt || inHot(x.Pos()) {
 				instrList(x.Body)
 			}
 		}
